@@ -88,6 +88,7 @@ ASPayload(id) == /\ Can /\ "payload" \in Calls /\ ctl.tag <= 3
                  /\ w' = DoSPayload(w, id, 100 + ctl.tag, 20).w /\ obs' = ObsStep(obs, DoSPayload(w, id, 100 + ctl.tag, 20).ev)
                  /\ hist' = IF Export THEN Append(hist, [a |-> "spayload", id |-> id, tag |-> 100 + ctl.tag, len |-> 20, as |-> NextName]) ELSE hist
                  /\ ctl' = [ctl EXCEPT !.steps = @ + 1, !.tag = @ + 1]
+ASetMax(n) == Can /\ "setmax" \in Calls /\ n # w.maxc /\ Apply(DoSetMax(w, n), [a |-> "setmax", n |-> n])
 ASDisconnect(id) == Can /\ "disconnect" \in Calls /\ ById(w, id) # 0 /\ Apply(DoSDisconnect(w, id), [a |-> "sdisconnect", id |-> id, as |-> NextName])
 ACDisconnect(c) == Can /\ "disconnect" \in Calls /\ w.cl[c].state = "Conn" /\ Apply(DoCDisconnect(w, c), [a |-> "cdisconnect", c |-> c, as |-> NextName])
 \* the client leaves and its disconnect packet reaches the server (one step)
@@ -108,6 +109,7 @@ Next == \/ \E c \in DOMAIN Clients : \E dt \in Dts : ACUpdate(c, dt) \/ AExchang
         \/ \E tk \in CraftToks : \E k \in 1..24 : \E a \in Addrs : ACraft(tk, k, a)
         \/ \E c \in DOMAIN Clients : ACPayload(c) \/ ACDisconnect(c) \/ ACLeave(c)
         \/ \E id \in Ids : ASPayload(id) \/ ASDisconnect(id)
+        \/ \E n \in 1..3 : ASetMax(n)
 
 Spec == Init /\ [][Next]_vars
 NoFlag == obs.flags = {}
